@@ -41,7 +41,7 @@ class PathTimeout(BaseException):
 # ---------------------------------------------------------------------------
 # concrete context
 
-TOL = 1e-9
+TOL = 1e-12     # concrete comparisons of computed floats (inputs of replays are integral / dyadic where possible)
 
 
 def _close(a, b):
